@@ -1,6 +1,6 @@
 """C05 - next_u32 / next_u64 / fill_bytes are projections of one forward-only stream."""
 from .. import terms as T
-from ..harness import (Crate, State, Ref, ArrV, Struct, flat_leaves, Anchor, Unsupported, SymbolicLoop, sym_self, synth_call,
+from ..harness import (Crate, State, Ref, ArrV, Struct, flat_leaves, Anchor, Unsupported, SymbolicLoop, Diverged, sym_self, synth_call,
                        sym_slice, same_value, ref_ty, ty_id)
 from ..ref import xoshiro as REF
 from .linear import Gen, RNGCORE
@@ -151,22 +151,52 @@ class Trial(object):
             chk.ob(*a, **k)
 
 
-def fill_spec(ev, st, g, selfref, n):
-    """the property's table row: n/8 next_u64 results, then one next_u64 (tail 5..7) or one next_u32 (tail 1..4)"""
+def fill_spec(ev, st, g, selfref, n, inline=False):
+    """the property's table row: n/8 next_u64 results, then one next_u64 (tail 5..7) or one next_u32 (tail 1..4);
+    the word calls are opaque atoms, or (inline) the type's own methods evaluated in place"""
     k32, k64 = g.method(RNGCORE, "next_u32"), g.method(RNGCORE, "next_u64")
     sty = ref_ty(ev, g.tyid)
     out = []
+    if inline:
+        synth = lambda ev_, st_, key, args, tys, dty: ev_.call_body(st_, key, list(args))
+    else:
+        synth = synth_call
     for _ in range(n // 8):
-        w = synth_call(ev, st, k64, [selfref], [sty], ty_id(ev, "u64"))
+        w = synth(ev, st, k64, [selfref], [sty], ty_id(ev, "u64"))
         out.extend(T.byte_of(w, i) for i in range(8))
     t = n % 8
     if t > 4:
-        w = synth_call(ev, st, k64, [selfref], [sty], ty_id(ev, "u64"))
+        w = synth(ev, st, k64, [selfref], [sty], ty_id(ev, "u64"))
         out.extend(T.byte_of(w, i) for i in range(t))
     elif t > 0:
-        w = synth_call(ev, st, k32, [selfref], [sty], ty_id(ev, "u32"))
+        w = synth(ev, st, k32, [selfref], [sty], ty_id(ev, "u32"))
         out.extend(T.byte_of(w, i) for i in range(t))
     return out, n // 8 + (1 if t else 0)
+
+
+def inlined_fill_differs(g, key, n):
+    """-> None if fill_bytes(n), everything inlined, writes the table's bytes and leaves the table's state"""
+    try:
+        ev = g.crate.evaluator()
+        st = State()
+        ref, leaves, oid = sym_self(ev, st, g.tyid, "s")
+        doid = st.alloc(ArrV(n, 8, None, None, {i: T.sym("dest[%d]" % i, 8) for i in range(n)}), "dest")
+        ev.call_body(st, key, [ref, Ref(doid, (), (0, n), True)])
+        ev2 = g.crate.evaluator()
+        st2 = State()
+        ref2, leaves2, oid2 = sym_self(ev2, st2, g.tyid, "s")
+        exp, ncalls = fill_spec(ev2, st2, g, ref2, n, inline=True)
+    except (Unsupported, SymbolicLoop, Diverged) as e:
+        return "not established: %s" % e
+    got = [st.objs[doid].get(i) for i in range(n)]
+    for i, (a, b) in enumerate(zip(got, exp)):
+        if a is not b:
+            return "byte %d is %s, the table's words give %s" % (i, T.show(a, 3), T.show(b, 3))
+    if not same_value(st.objs[oid], st2.objs[oid2]):
+        return "final state differs from the state left by the table's word calls"
+    if st.world is not st2.world or ev.calls or ev2.calls:
+        return "not established: calls outside the generator"
+    return None
 
 
 def check_fill_bounded(chk, g, lens, opaque_defs=()):
@@ -177,7 +207,7 @@ def check_fill_bounded(chk, g, lens, opaque_defs=()):
     body = g.crate.body(key)
     where = body["span"][0]
     bad = []
-    done = 0
+    done = inlined = 0
     for n in lens:
         ev = g.crate.evaluator()
         ev.no_inline.update([k32, k64])
@@ -187,7 +217,7 @@ def check_fill_bounded(chk, g, lens, opaque_defs=()):
         doid = st.alloc(ArrV(n, 8, None, None, {i: T.sym("dest[%d]" % i, 8) for i in range(n)}), "dest")
         try:
             ev.call_body(st, key, [ref, Ref(doid, (), (0, n), True)])
-        except (Unsupported, SymbolicLoop) as e:
+        except (Unsupported, SymbolicLoop, Diverged) as e:
             bad.append("n=%d: not established: %s" % (n, e))
             continue
         ev2 = g.crate.evaluator()
@@ -196,15 +226,27 @@ def check_fill_bounded(chk, g, lens, opaque_defs=()):
         exp, ncalls = fill_spec(ev2, st2, g, ref2, n)
         got = [st.objs[doid].get(i) for i in range(n)]
         done += 1
+        msg = None
         if len(ev.calls) != ncalls:
-            bad.append("n=%d: %d word call(s) %s, table requires %d" % (n, len(ev.calls), [c[1].split("::")[-1] for c in ev.calls], ncalls))
+            msg = "n=%d: %d word call(s) %s, table requires %d" % (n, len(ev.calls), [c[1].split("::")[-1] for c in ev.calls], ncalls)
         elif any(a is not b for a, b in zip(got, exp)):
             i = next(i for i, (a, b) in enumerate(zip(got, exp)) if a is not b)
-            bad.append("n=%d: byte %d is %s, table requires %s" % (n, i, T.show(got[i], 3), T.show(exp[i], 3)))
+            msg = "n=%d: byte %d is %s, table requires %s" % (n, i, T.show(got[i], 3), T.show(exp[i], 3))
         elif not same_value(st.objs[oid], st2.objs[oid2]):
-            bad.append("n=%d: final state differs from the state left by the required calls" % n)
+            msg = "n=%d: final state differs from the state left by the required calls" % n
         elif st.world is not st2.world:
-            bad.append("n=%d: an unlisted side effect occurs" % n)
+            msg = "n=%d: an unlisted side effect occurs" % n
+        if msg and not opaque_defs:
+            # a body that produces the words itself instead of calling next_u32 / next_u64: compare with the word methods
+            # evaluated in place (bytes and final state as normal forms)
+            m2 = inlined_fill_differs(g, key, n)
+            if m2 is None:
+                msg = None
+                inlined += 1
+            elif not m2.startswith("not established"):
+                msg = "n=%d: %s" % (n, m2)
+        if msg:
+            bad.append(msg)
     ok = not bad
     chk.ob("R7", "%s::fill_bytes|bytes, word calls and final state for each length in %d..=%d" % (g.ident, lens[0], lens[-1]), ok,
            "; ".join(bad[:3]), where=where, nontrivial=True,
